@@ -138,4 +138,17 @@ def run(rep):
                             "(all core forms, nesting to ~6, up to ~100 nodes, boundary ints), a malformed stream (one tree mutation), and the exhaustive "
                             "set of nesting-1 expressions over {0,1,a} x {+ cond and or let begin def set} (nesting 2 sampled in quick, complete in thorough); "
                             "an op is non-trivial when at least one text evaluated to a value")
-    V.proof_break_resolution(rep, bool(bad_spec))
+    # channel `alias`: constructor freshness / aliasing (harness/gen_alias.go, Driver/Alias.lean): same protocol, same judge
+    arows, astats = V.run_channel("alias", rep.seed, rep.tier)
+    arows, ajstats = judge(arows)
+    abad_spec, abad_model = V.correspondence(rep, "alias", arows, astats, nontrivial=nontrivial)
+    rep.coverage["channels"]["alias"].update(ajstats)
+    rep.coverage["rule_alias"] = ("constructor freshness / aliasing: every expression form that constructs a mutable value (22 kinds: constant / variable / computed / nested array literals, "
+                                  "(array ..), lists and conses holding arrays, append, concat, map, rest, a literal returned by a helper, in a cond arm, as a let initialiser) x every evaluated position "
+                                  "(28 kinds: operand of user fn / closure / anonymous fn / host fn / builtin / apply / map, variadic and lazy operands, def/set rhs, let/letseq initialiser and body, begin, newScope, "
+                                  "cond arm and default, and/or, aget default; nested up to 3) x re-execution route (fn called twice, called by later texts of the history, for body, for body in a fn called twice, "
+                                  "recursion, self tail call, closure called after its creator returned, two closures of one template, map, written twice) x in-place mutation between the executions "
+                                  "(aset at each index, through an alias, through a callee's parameter, increment, inside the callee the value was passed to, none) x observation (earlier result, later result, both, "
+                                  "equality of an element, identity, trace); plus derived values (append/concat/map of a variable must not share storage with it, both directions, spare capacity) and a malformed stream; "
+                                  "quick: every constructor x position pair once, a third of constructor x route x mutation, 250 random; thorough: all of them")
+    V.proof_break_resolution(rep, bool(bad_spec) or bool(abad_spec))
